@@ -211,7 +211,7 @@ func runC10(c *Ctx, i int, r *rand.Rand) {
 		size = max
 	}
 	creq := &ClientReq{Form: form, M: m, Codec: pick(r, []string{"proto", "json"}), HTTP2: true, DeclLen: chance(r, 50), GetViaQuery: true, Accept: []string{"gzip"}}
-	script := &BackendScript{Comp: pick(r, []string{"", "gzip"}), ReadBuf: 64 << 10}
+	script := &BackendScript{Comp: pick(r, []string{"", "gzip"}), ReadBuf: 64 << 10, DeclLen: chance(r, 40)}
 	// strata that random configurations reach too rarely: a forced re-encoding (the transforming adapters buffer whole
 	// messages) and a single forced target protocol (un-enveloped Connect unary bodies vs enveloped streams)
 	if chance(r, 35) {
@@ -237,7 +237,11 @@ func runC10(c *Ctx, i int, r *rand.Rand) {
 	big := func(md protoreflect.MessageDescriptor) proto.Message {
 		switch family {
 		case "json-expansion":
-			return expandingMessage(md, pick(r, []int{int(L) / 40, int(L) / 4, int(L)}))
+			n := pick(r, []int{int(L) / 40, int(L) / 4, int(L)})
+			if max := tierN(c.Tier, 200_000, 2_000_000); n > max {
+				n = max // hundreds of megabytes of JSON add nothing but run time
+			}
+			return expandingMessage(md, n)
 		}
 		return sizedMessage(md, size, compressible, r)
 	}
@@ -506,7 +510,8 @@ func c10DeclaredLength(c *Ctx, i int, r *rand.Rand, cfg *SvcConfig, creq *Client
 	if maxCap > 4*int(L)+64<<10 {
 		c.Violate(i, "pooled-buffer-exceeds-bound/declared-length/"+dir, detail())
 	}
-	if !dirReq && (script.Comp == "" || e.Backend.Obs.UsedComp != "") && e.Backend.Obs.Invocations > 0 && e.Backend.Obs.Proto != "connect-unary" && e.Backend.Obs.Proto != "rest" && e.Out.OK() {
+	// (pass-through exchanges are the backend's own response, written straight to the server's writer)
+	if !dirReq && !e.Backend.Obs.Direct && (script.Comp == "" || e.Backend.Obs.UsedComp != "") && e.Backend.Obs.Invocations > 0 && e.Backend.Obs.Proto != "connect-unary" && e.Backend.Obs.Proto != "rest" && e.Out.OK() {
 		c.Violate(i, "short-frame-delivered-as-success/declared-length/"+dir, detail())
 	}
 	if dirReq && e.Out.OK() {
